@@ -1,48 +1,210 @@
-use std::hash::{Hash, Hasher};
-use std::net::SocketAddrV4;
-use vharness::explore::Chooser;
-use vharness::sim::*;
+//! vcheck-bin <ID> quick|thorough            run a check (parent; spawns pinned worker processes)
+//! vcheck-bin --worker <ID> <tier> <i> <n> <out>   one shard
+//! vcheck-bin --replay <ID> <file>            re-execute a recorded violation
+//! vcheck-bin --smoke                         determinism smoke test of the simulator
+//!
+//! Exit codes: 0 held (possibly with KNOWN-FINDING lines), 1 VIOLATION, 2 machinery error.
 
-fn smoke(n_servers: usize) -> (u64, u64, u64) {
-    let mut w = World::new(Chooser::default_run());
-    let mut boots: Vec<SocketAddrV4> = vec![];
-    for i in 0..n_servers {
-        let cfg = NodeCfg::new([8, 8, i as u8 + 1, 1], 6881).server().bootstrap(&boots);
-        let n = w.add_node(cfg);
-        if i == 0 {
-            boots.push(w.node_addr(n));
+use std::process::{exit, Command};
+use std::time::Instant;
+
+use serde_json::Value;
+use vharness::checks::{self, CheckDef};
+use vharness::report::{evidence_json, KnownFindings, Partial, Tier};
+
+const VERIF_DIR: &str = "/verif";
+
+fn find(id: &str) -> CheckDef {
+    match checks::all().into_iter().find(|c| c.id == id) {
+        Some(c) => c,
+        None => {
+            eprintln!("MACHINERY: unknown check {id}");
+            exit(2)
         }
-        let c = w.call_bootstrapped(n);
-        let h = w.now + 60 * SEC;
-        assert!(w.run_calls(&[c], h), "bootstrapped() did not return");
     }
-    let a = w.add_node(NodeCfg::new([9, 9, 9, 1], 7000).bootstrap(&boots));
-    let b = w.add_node(NodeCfg::new([9, 9, 9, 2], 7000).bootstrap(&boots));
-    let c1 = w.call_bootstrapped(a);
-    let c2 = w.call_bootstrapped(b);
-    let h = w.now + 60 * SEC;
-    assert!(w.run_calls(&[c1, c2], h));
-    let put = w.call_put_immutable(a, b"hello world".to_vec());
-    let h = w.now + 60 * SEC;
-    assert!(w.run_calls(&[put], h));
-    let target = match w.result(put) { Some(CallResult::Put(Ok(id))) => *id, r => panic!("put: {r:?}") };
-    let get = w.call_get_immutable(b, target);
-    let h = w.now + 60 * SEC;
-    assert!(w.run_calls(&[get], h));
-    match w.result(get) { Some(CallResult::Bytes(Some(v))) => assert_eq!(v, b"hello world"), r => panic!("get: {r:?}") };
-    let mut hsh = std::collections::hash_map::DefaultHasher::new();
-    for (d, f) in w.sent() { d.hash(&mut hsh); f.hash(&mut hsh); }
-    (hsh.finish(), w.steps, w.now - T0)
+}
+
+fn seed() -> u64 {
+    std::env::var("VERIF_SEED")
+        .ok()
+        .and_then(|s| s.parse().ok())
+        .unwrap_or(0)
+}
+
+fn run_sharded(def: &CheckDef, tier: Tier, shards: usize) -> Partial {
+    let exe = std::env::current_exe().expect("current exe");
+    let dir = format!("{VERIF_DIR}/target/shards/{}-{}-{}", def.id, tier.name(), std::process::id());
+    let _ = std::fs::remove_dir_all(&dir);
+    std::fs::create_dir_all(&dir).expect("shard dir");
+    let mut children = vec![];
+    for i in 0..shards {
+        let out = format!("{dir}/{i}.json");
+        let child = Command::new(&exe)
+            .args(["--worker", def.id, tier.name(), &i.to_string(), &shards.to_string(), &out])
+            .spawn()
+            .expect("spawn worker");
+        children.push((i, out, child));
+    }
+    let mut merged = Partial::default();
+    let mut failed = false;
+    for (i, out, mut child) in children {
+        let st = child.wait().expect("wait");
+        if !st.success() {
+            eprintln!("MACHINERY: worker {i} of {} exited with {st}", def.id);
+            failed = true;
+            continue;
+        }
+        let txt = std::fs::read_to_string(&out).unwrap_or_default();
+        match serde_json::from_str::<Value>(&txt).ok().and_then(|v| Partial::from_json(&v)) {
+            Some(p) => merged.merge(p),
+            None => {
+                eprintln!("MACHINERY: worker {i} of {} wrote no valid result", def.id);
+                failed = true;
+            }
+        }
+    }
+    let _ = std::fs::remove_dir_all(&dir);
+    if failed {
+        exit(2);
+    }
+    merged
 }
 
 fn main() {
-    pin_to_core(0);
-    for n in [1usize, 3, 5, 10] {
-        let t = std::time::Instant::now();
-        let a = smoke(n);
-        let el = t.elapsed();
-        let b = smoke(n);
-        assert_eq!(a, b, "nondeterministic replay");
-        println!("n={n} digest={:x} steps={} vtime={}ms wall={:?}", a.0, a.1, a.2 / MS, el);
+    checks::install_panic_hook();
+    let args: Vec<String> = std::env::args().skip(1).collect();
+    let a: Vec<&str> = args.iter().map(|s| s.as_str()).collect();
+    match a.as_slice() {
+        ["--smoke"] => {
+            vharness::smoke::run();
+        }
+        ["--worker", id, tier, i, n, out] => {
+            let def = find(id);
+            let tier = Tier::parse(tier).expect("tier");
+            let (i, n): (usize, usize) = (i.parse().expect("i"), n.parse().expect("n"));
+            vharness::sim::pin_to_core(i % checks::cores());
+            let p = (def.run)(tier, i, n, seed());
+            std::fs::write(out, serde_json::to_string(&p.to_json()).expect("json")).expect("write");
+        }
+        ["--replay", id, file] => {
+            let def = find(id);
+            let txt = std::fs::read_to_string(file).unwrap_or_else(|e| {
+                eprintln!("MACHINERY: cannot read {file}: {e}");
+                exit(2)
+            });
+            let v: Value = serde_json::from_str(&txt).unwrap_or_else(|e| {
+                eprintln!("MACHINERY: bad replay file: {e}");
+                exit(2)
+            });
+            let replay = v.get("replay").cloned().unwrap_or(v);
+            match (def.replay)(&replay) {
+                Ok(Some(viol)) => {
+                    println!("REPLAY reproduces: [{}] {}", viol.key, viol.desc);
+                    println!("VIOLATION property={id} replay={file}");
+                    exit(1)
+                }
+                Ok(None) => {
+                    println!("REPLAY does not violate the property on this tree");
+                    exit(0)
+                }
+                Err(e) => {
+                    eprintln!("MACHINERY: replay failed: {e}");
+                    exit(2)
+                }
+            }
+        }
+        [id, tier] => {
+            let def = find(id);
+            let Some(tier) = Tier::parse(tier) else {
+                eprintln!("usage: vcheck-bin <ID> quick|thorough");
+                exit(2)
+            };
+            let t0 = Instant::now();
+            let shards = (def.shards)(tier);
+            let merged = if shards <= 1 {
+                match checks::catch(|| (def.run)(tier, 0, 1, seed())) {
+                    Ok(p) => p,
+                    Err(e) => {
+                        eprintln!("MACHINERY: check {id} panicked: {e}");
+                        exit(2)
+                    }
+                }
+            } else {
+                run_sharded(&def, tier, shards)
+            };
+            let wall = t0.elapsed().as_secs_f64();
+            let info = (def.info)(tier);
+
+            // Vacuity guards.
+            let mut vacuous = false;
+            for (w, n) in &merged.witnesses {
+                if *n == 0 {
+                    eprintln!("MACHINERY: vacuity witness never hit: {w}");
+                    vacuous = true;
+                }
+            }
+
+            let known = KnownFindings::load(&format!("{VERIF_DIR}/known_findings.json"));
+            let mut known_hit = vec![];
+            let mut fresh = vec![];
+            for v in &merged.violations {
+                match known.lookup(id, &v.key) {
+                    Some(what) => {
+                        println!("KNOWN-FINDING: property={id} [{}] {}", v.key, what);
+                        known_hit.push(v.key.clone());
+                    }
+                    None => fresh.push(v),
+                }
+            }
+            let rdir = format!("{VERIF_DIR}/replays/{id}");
+            let mut lines = vec![];
+            for v in &fresh {
+                let _ = std::fs::create_dir_all(&rdir);
+                let name: String = v
+                    .key
+                    .chars()
+                    .map(|c| if c.is_ascii_alphanumeric() || c == '-' { c } else { '_' })
+                    .collect();
+                let path = format!("{rdir}/{name}.json");
+                let body = serde_json::json!({"property": id, "key": v.key, "desc": v.desc, "replay": v.replay});
+                let _ = std::fs::write(&path, serde_json::to_string_pretty(&body).expect("json"));
+                println!("  violation [{}]: {}", v.key, v.desc);
+                lines.push(format!("VIOLATION property={id} replay={path}"));
+            }
+
+            let ev = evidence_json(&info, tier, seed(), &merged, wall, fresh.len(), &known_hit);
+            let _ = std::fs::create_dir_all(format!("{VERIF_DIR}/evidence"));
+            std::fs::write(
+                format!("{VERIF_DIR}/evidence/{id}.json"),
+                serde_json::to_string_pretty(&ev).expect("json"),
+            )
+            .expect("write evidence");
+
+            println!(
+                "{id} {}: executions/evaluations={} states={} transitions={} distinct={} capped={} wall={:.1}s new_violations={} known={}",
+                tier.name(),
+                merged.count("executions").max(merged.count("evaluations")),
+                merged.digests.len(),
+                merged.count("transitions"),
+                merged.outcomes.len().max(merged.count("distinct_nontrivial") as usize),
+                merged.capped,
+                wall,
+                fresh.len(),
+                known_hit.len()
+            );
+            for l in &lines {
+                println!("{l}");
+            }
+            if vacuous {
+                exit(2);
+            }
+            if !lines.is_empty() {
+                exit(1);
+            }
+        }
+        _ => {
+            eprintln!("usage: vcheck-bin <ID> quick|thorough | --replay <ID> <file> | --smoke");
+            exit(2)
+        }
     }
 }
